@@ -7,8 +7,10 @@ SIMPLE = ["int", "str", "float", "bool", "bytes", "complex", "object", "None"]
 
 
 class ProgGen:
-  def __init__(self, r):
+  def __init__(self, r, allow_self=False):
     self.r = r
+    self.allow_self = allow_self          # typing.Self only once its finding is listed
+    self.metas = []
     self.classes = []
     self.tvars = []
     self.lines = []
@@ -161,41 +163,93 @@ class ProgGen:
     name = self.fresh("C")
     bases = []
     k = r.random()
-    generic = False
-    if k < 0.2 and self.tvars:
-      tv = r.choice(self.tvars)
-      bases.append("Generic[%s]" % tv)
-      generic = True
-    elif k < 0.4 and self.classes:
+    if k < 0.15 and self.tvars:
+      bases.append("Generic[%s]" % r.choice(self.tvars))
+    elif k < 0.22 and len(self.tvars) >= 2:
+      tv = r.sample(self.tvars, 2)
+      bases.append("Generic[%s, %s]" % (tv[0], tv[1]))
+    elif k < 0.28 and self.tvars:
+      bases.append("Protocol[%s]" % r.choice(self.tvars))
+    elif k < 0.42 and self.classes:
       bases.append(r.choice(self.classes))
-    elif k < 0.5:
+    elif k < 0.50:
       bases.append(r.choice(["List[int]", "Dict[str, int]", "object", "Exception"]))
-    s = pad + "class %s%s:\n" % (name, "(" + ", ".join(bases) + ")" if bases else "")
+    elif k < 0.56 and indent == 0:
+      # NamedTuple / TypedDict in class form
+      if r.random() < 0.5:
+        s = pad + "class %s(NamedTuple):\n" % name
+        s += pad + "  a: %s\n" % self.ann(1, allow_tvar=False)
+        s += pad + "  b: %s = %s\n" % (r.choice(["int", "str"]), r.choice(["1", "'x'"])) if r.random() < 0.6 else ""
+      else:
+        s = pad + "class %s(TypedDict%s):\n" % (name, ", total=False" if r.random() < 0.5 else "")
+        s += pad + "  k: %s\n" % self.ann(1, allow_tvar=False)
+        s += pad + "  v: %s\n" % self.ann(1, allow_tvar=False) if r.random() < 0.6 else ""
+      self.classes.append(name)
+      return s
+    if r.random() < 0.1 and indent == 0 and self.metas and not any(b.startswith(("Generic", "Protocol")) for b in bases):
+      bases.append("metaclass=" + r.choice(self.metas))
+    s = ""
+    if r.random() < 0.12:
+      s += pad + "@final\n"
+    s += pad + "class %s%s:\n" % (name, "(" + ", ".join(bases) + ")" if bases else "")
     n = 0
-    if r.random() < 0.6:
+    # __slots__: absent, empty, one, several; sometimes the only content of the class
+    sl = r.choice([None, None, None, None, "()", "()", "('x',)", "('a', 'b')"])
+    if sl is not None and not any(b.startswith(("List", "Dict", "Exception")) for b in bases):
+      s += pad + "  __slots__ = %s\n" % sl
+      n += 1
+      if r.random() < 0.4:
+        if indent == 0:
+          self.classes.append(name)
+        return s
+    if r.random() < 0.08:
+      s += pad + "  pass\n"
+      if indent == 0:
+        self.classes.append(name)
+      return s
+    if r.random() < 0.6 and sl is None:
       for _ in range(r.choice([1, 2])):
         s += pad + "  %s: %s%s\n" % (self.fresh("v"), self.ann(), " = " + self.default_for() if r.random() < 0.3 else "")
         n += 1
-    if r.random() < 0.5:
+    if r.random() < 0.5 and sl is None:
       s += pad + "  def __init__(self%s) -> None:\n" % (", q: " + self.ann() if r.random() < 0.6 else ", q=1")
       s += pad + "    self.%s = q\n" % self.fresh("at")
       n += 1
     for _ in range(r.choice([0, 1, 2, 3])):
       k = r.random()
-      if k < 0.5:
-        s += self.func(indent + 2, "self")
-      elif k < 0.65:
+      if k < 0.4:
+        s += self.func(indent + 2, "self", deco="@final" if r.random() < 0.1 else None)
+      elif k < 0.52:
         s += self.func(indent + 2, "cls", deco="@classmethod")
-      elif k < 0.8:
+      elif k < 0.64:
         s += self.func(indent + 2, None, deco="@staticmethod")
+      elif k < 0.74:
+        on = self.fresh("o")
+        s += pad + "  @overload\n" + pad + "  def %s(self, x: int) -> int: ...\n" % on
+        s += pad + "  @overload\n" + pad + "  def %s(self, x: str) -> str: ...\n" % on
+        s += pad + "  def %s(self, x):\n" % on + pad + "    return x\n"
+      elif k < 0.80 and self.allow_self:
+        s += pad + "  def %s(self%s) -> Self:\n" % (self.fresh("sf"), ", other: Self" if r.random() < 0.4 else "")
+        s += pad + "    return self\n"
       else:
         pn = self.fresh("p")
         s += pad + "  @property\n" + pad + "  def %s(self)%s:\n" % (pn, " -> " + self.ann() if r.random() < 0.6 else "")
         s += pad + "    return %s\n" % r.choice(["1", "'s'", "None", "self"])
+        if r.random() < 0.4:
+          s += pad + "  @%s.setter\n" % pn + pad + "  def %s(self, v) -> None:\n" % pn + pad + "    pass\n"
+          if r.random() < 0.4:
+            s += pad + "  @%s.deleter\n" % pn + pad + "  def %s(self) -> None:\n" % pn + pad + "    pass\n"
       n += 1
-    if depth < 1 and r.random() < 0.3:
+    if depth < 2 and r.random() < 0.3:
+      inner_before = self.n
       s += self.klass(indent + 2, depth + 1)
       n += 1
+      if r.random() < 0.4:
+        # alias to the nested class just defined
+        m = [l for l in s.split("\n") if l.startswith(pad + "  class ") or l.startswith(pad + "  @final")]
+        nested = [l.strip()[6:].split("(")[0].split(":")[0] for l in m if l.strip().startswith("class ")]
+        if nested:
+          s += pad + "  %s = %s\n" % (self.fresh("al"), nested[-1])
     if not n:
       s += pad + "  pass\n"
     if indent == 0:
@@ -204,9 +258,14 @@ class ProgGen:
 
   def program(self):
     r = self.r
-    out = ["from typing import (Any, Callable, Dict, Generic, Iterable, List, Literal, NoReturn, Optional, Sequence,",
-           "                    Set, Tuple, Type, TypeVar, Union)", ""]
-    for _ in range(r.choice([0, 1, 1, 2])):
+    out = ["from typing import (Any, Callable, Dict, Generic, Iterable, List, Literal, NamedTuple, NoReturn, Optional,",
+           "                    ParamSpec, Protocol, Self, Sequence, Set, Tuple, Type, TypedDict, TypeVar, Union, final,",
+           "                    overload)", ""]
+    if r.random() < 0.3:
+      mn = self.fresh("Meta")
+      out.append("class %s(type): pass" % mn)
+      self.metas.append(mn)
+    for _ in range(r.choice([0, 1, 1, 2, 2])):
       tv = self.fresh("T")
       k = r.random()
       if k < 0.6:
@@ -223,6 +282,12 @@ class ProgGen:
         out.append(self.func())
       elif k < 0.7:
         out.append(self.klass())
+      elif k < 0.74 and self.classes:
+        out.append("%s = %s" % (self.fresh("CAlias"), r.choice(self.classes)))      # alias to a class
+      elif k < 0.77 and self.tvars:
+        ps = self.fresh("P")
+        out.append("%s = ParamSpec(%r)" % (ps, ps))
+        out.append("def %s(f: Callable[%s, %s]) -> Callable[%s, %s]:\n  return f\n" % (self.fresh("deco"), ps, self.tvars[0], ps, self.tvars[0]))
       elif k < 0.8:
         out.append("%s = %s" % (self.fresh("Alias"), self.ann(2, allow_tvar=False)))
       elif k < 0.9:
@@ -235,5 +300,5 @@ class ProgGen:
     return "\n".join(out) + "\n"
 
 
-def gen_program(r):
-  return ProgGen(r).program()
+def gen_program(r, allow_self=False):
+  return ProgGen(r, allow_self).program()
